@@ -52,6 +52,8 @@ fn history_set(len: usize) -> Vec<Vec<HOp>> {
     let a = dec("123456789");
     let mut alpha: Vec<HOp> = pos.iter().map(|i| HOp::Set(*i, a.clone())).collect();
     alpha.push(HOp::Append(p() - big(1)));
+    // a leaf equal to the hash of an empty subtree of height 1 (e.g. the commitment of an all-zero registration)
+    alpha.push(HOp::Set(1, crate::refmodel::poseidon::hash2(&big(0), &big(0))));
     alpha.extend(pos.iter().map(|i| HOp::Delete(*i)));
     let mut out: Vec<Vec<HOp>> = vec![];
     let mut cur: Vec<Vec<HOp>> = vec![vec![]];
